@@ -346,6 +346,12 @@ static void gen_case(Out& out, Rng& g) {
     g_rectilinear = uni && join != 2;
     DGroup G = gen_group(g, S, span, scen);
     g_rectilinear = false;
+    // vertex lists given explicitly closed (last vertex == first, as many tools write them): the same region
+    if (g.chance(20)) {
+        for (auto& p : G)
+            if (p.size() >= 3 && g.coin()) p.push_back(p.front());
+        scen += "+closed";
+    }
     double tol;
     if (join == 2) {
         // segments per full circle; among them values for which steps-per-corner has a fractional part near one half at the
